@@ -64,6 +64,9 @@ def models():
         "MaskedAutoregressiveFlow/random-permutations": (lambda: perturb(FL.MaskedAutoregressiveFlow(4, 8, num_layers=2, num_blocks_per_layer=1, use_random_permutations=True)), (4,), "none", 0, False),
         "Flow(Logit T=1.5 + LU|StandardNormal)": (lambda: perturb(FL.base.Flow(TR.CompositeTransform([TR.Logit(temperature=1.5), TR.LULinear(3, identity_init=False)]), D.StandardNormal([3])), 9), (3,), "none", 0, False),
         "Flow(1x1 convolution|StandardNormal [4,1,2])": (lambda: perturb(FL.base.Flow(TR.OneByOneConvolution(4, identity_init=False), D.StandardNormal([4, 1, 2])), 11), (4, 1, 2), "none", 0, False),
+        # one gate value per context row, broadcast over the features (the two directions must count it alike)
+        "Flow(GLU row gate + affine|StandardNormal)": (lambda: FL.base.Flow(TR.CompositeTransform([TR.GatedLinearUnit(), TR.PointwiseAffineTransform(shift=torch.tensor([0.3, -0.2, 0.1]), scale=torch.tensor([1.5, 0.7, 2.0]))]), D.StandardNormal([3])), (3,), "required", 1, False),
+        "Flow(GLU + embedding to one gate|CondNormal)": (lambda: perturb(FL.base.Flow(TR.GatedLinearUnit(), D.ConditionalDiagonalNormal([3], context_encoder=torch.nn.Linear(1, 6)), embedding_net=torch.nn.Linear(4, 1)), 17), (3,), "required", 4, False),
         "SimpleRealNVP": (lambda: perturb(FL.SimpleRealNVP(4, 8, num_layers=2, num_blocks_per_layer=1)), (4,), "none", 0, False),
         "StandardNormal": (lambda: D.StandardNormal([3]), (3,), "optional", 3, False),
         "ConditionalDiagonalNormal/marker": (lambda: D.ConditionalDiagonalNormal([2]), (2,), "required", 4, True),
@@ -213,6 +216,14 @@ def main(run, replay=None):
     run.model_must_hold(res, "DistApi")
     run.add_tlc(res, "DistApi (RowPairing, RowPlacement)")
     states = parse_dump(res.dump)
+    if replay and replay["case"].get("kind") == "mog_sigma":
+        import torch
+
+        from checks.c05 import mog_sigma_fails
+
+        for msg in mog_sigma_fails(torch, replay["case"]["features"]):
+            run.violation({"model": "MixtureOfGaussiansMADE", "clause": "sampler_vs_density"}, "replayed: " + msg, replay["case"])
+        return
     if replay:
         c = replay["case"]
         sts = [s for s in states if str(s["call"]["op"]) == c["op"] and str(s["call"]["n"]["k"]) == "int" and int(s["call"]["n"]["v"]) == c["n"] and int(s["call"]["rows"]) == c["rows"]
@@ -234,6 +245,17 @@ def main(run, replay=None):
             run.nontrivial.add((str(c["op"]), int(c["n"]["v"]), int(c["rows"]), repr(c.get("bs"))))
     ex = next(s for s in states if str(s["call"]["op"]) == "slp" and str(s["call"]["n"]["k"]) == "int" and int(s["call"]["n"]["v"]) == 2 and int(s["call"]["rows"]) == 3)
     run.sample({"call": "sample_and_log_prob(2, context with 3 rows)", "spec_pairs(generated under row, scored under row)": [[int(a), int(b)] for a, b in ex["out"]["pairs"]]})
+    if not replay:
+        # the sampler of the mixture-of-Gaussians MADE against the density's own component (mean and spread read off
+        # the density's gradient and curvature): under the constant stream z = 1 a draw is mu + sigma
+        import torch
+
+        from checks.c05 import mog_sigma_fails
+
+        for dd in (1, 2, 3):
+            run.evaluations += 3
+            for msg in mog_sigma_fails(torch, dd):
+                run.violation({"model": "MixtureOfGaussiansMADE", "clause": "sampler_vs_density", "features": dd}, msg, {"kind": "mog_sigma", "features": dd})
     seen = set()
     for f in fails:
         key = (f["model"], f["clause"], f["op"], f["n"], f["rows"], f["bs"], f.get("history"))
